@@ -1,32 +1,57 @@
 """C11 — the action mask agrees with what the simulator would refuse."""
 from __future__ import annotations
 
+import json
 from typing import Any, Dict, List
 
 from harness.extract import action_mask as x_mask
+from harness.extract import action_templates as x_templ
 from harness.extract import request_core as x_core
+from harness.extract import request_schema as x_schema
+from harness.extract import request_validators as x_valid
 from harness.lib import scen
 from harness.lib.core import Ctx, lean_lock
 from harness.props import c05
 from harness.rigs import request as rig
+from harness.rigs import request_siblings as sibs
 
 MANIFEST = {
     "text": "Lean 4 proof, for every request tree, validator valuation and request, that the model of RequestManager.check_valid is true "
             "exactly when the model of __call__ reaches a handler (C11_mask_iff_reaches), hence a masked-out action is answered "
-            "unreachable/failure and an allowed one is never refused; and that the mask equals 'target exists and every permission rule on "
-            "the path holds'. The pre-repair leaf-only traversal is refuted by a decided counterexample (F-19, fixed). Tie: shape of "
-            "check_valid regenerated from core.py (obligation C11_gen_check_valid_shape); rig R-req compares the real check_valid with the "
-            "model on every route, mutation and action request of live trees; the environment-level rig compares, for EVERY action-map entry "
-            "at EVERY step of random episodes (including nodes shutting down/booting, services restarting), the real mask bit with whether "
-            "the real __call__ reaches a (stubbed) handler.",
+            "unreachable/failure and an allowed one is never refused; that the mask equals 'target exists and every permission rule on "
+            "the path holds'; that action_mask lays the verdicts out by action number for every listing order of the action map "
+            "(C11_mask_by_action_number, C11_masked_number_iff_reaches) and that a mask entry depends on nothing but its own action "
+            "(C11_mask_entry_depends_only_on_its_action); with the valuation induced by the regenerated translation of every validator "
+            "__call__ (proved equal to its declarative specification in C05Guards) and the falsy context action_mask passes, bit i = "
+            "'the path of action i exists and every rule on it holds for the options it is given' (C11_mask_bit_iff_rules_hold), and a "
+            "masked-out request has a missing target or a nameable false rule (C11_masked_out_names_a_false_rule). Sharing guard verdicts between the entries of one mask (a per-edge memo) is "
+            "modelled and proved equal to the mask for every tree and map IF every rule ignores its options "
+            "(C11_memo_sound_of_option_free), refuted for name-reading rules by a decided counterexample (C11_memo_counterexample), and "
+            "the regenerated translation of every validator __call__ is classified: node/NIC/service/application/group rules are "
+            "option-free, the five file-system rules give different verdicts to siblings (C11_gen_option_free_rules, "
+            "C11_gen_option_reading_rules). The pre-repair leaf-only traversal is refuted by a decided counterexample (F-19, fixed). "
+            "Tie: statement shape of check_valid / __call__ regenerated from core.py (C11_gen_check_valid_shape; an optional parameter "
+            "is translated by specialising the body to its default, only if no call site passes it), shape of action_mask / "
+            "action_masks / get_action / schema regenerated (C11_gen_action_mask_shape); rig R-req compares the real check_valid with "
+            "the model on every route, mutation and action request of live trees; the environment-level rig compares, for EVERY "
+            "action-map entry at EVERY step of random episodes (nodes shutting down/booting, services restarting; action maps re-listed "
+            "in shuffled order; a sibling-divergence family whose action map aims every target-taking action type at two files of a "
+            "folder / two folders, services, applications of a host / two ports of a network node and whose history drives the "
+            "siblings apart), the real mask bit with whether the real __call__ reaches a (stubbed) handler, executes entries for real "
+            "against their bit, steps the environment against the mask read before the step (countdown boundaries), checks that "
+            "nothing of the mask survives a reset and that computing the mask is a pure observation.",
     "note": "C11-specific: form_request of each action is exercised on the real classes, not modelled; validator truth values are read "
-            "from the real objects.",
-    "technique": "Lean 4 theorem mask = reaches-handler over the dispatch model; regenerated shape table; differential rig incl. full action maps",
+            "from the real objects; that the step's own pre-processing changes no rule's truth is tested (boundary family), not proved; "
+            "PrimaiteRayEnv wrappers are not driven.",
+    "technique": "Lean 4 theorems (mask = reaches-handler; layout by number; memo soundness iff option-free) over the dispatch model; "
+                 "regenerated shape tables and translated validators; differential rig incl. full and sibling action maps",
     "design_ref": "5/C11",
 }
-MODULES = ["PrimaiteModel.Props.C11"]
+MODULES = ["PrimaiteModel.Props.C11", "PrimaiteModel.Props.C11Memo", "PrimaiteModel.Props.C11Rules"]
 EXE = "drv_c05"
 MASK_SCEN = ["data_manipulation", "test_primaite_session", "extended_config"]
+OTHER_SIBLING_SCEN = ["uc7_config", "firewall_actions_network", "basic_switched_network", "nodes_with_initial_files",
+                      "install_and_configure_apps", "test_application_install"]
 
 
 
@@ -73,16 +98,36 @@ def env_level(ctx: Ctx):
     shipped = scen.shipped()
     names = [n for n in MASK_SCEN if n in shipped][: ctx.scale(2, 3)]
     total = agree = executed = stepped = 0
-    for name, order in [(n, o) for n in names for o in (("as-listed", "shuffled") if not ctx.thorough else ("as-listed", "shuffled", "reversed"))]:
+    variants = [(n, o) for n in names for o in (("as-listed", "shuffled") if not ctx.thorough else ("as-listed", "shuffled", "reversed"))]
+    # sibling-divergence family: the same scenarios with an action map that aims every target-taking action type at >= 2 siblings
+    # (two files of a folder, two folders / services / applications of a host, two ports of a router), driven apart by the history
+    variants += [(n, "siblings") for n in [n for n in MASK_SCEN if n in shipped][: ctx.scale(3, 3)] for _ in range(ctx.scale(1, 2))]
+    # … and on scenarios shipped WITHOUT action masking (other topologies: uc7, firewall, flat switched networks), masking switched on
+    others = [n for n in sibs.other_scenarios() if n not in MASK_SCEN and n in OTHER_SIBLING_SCEN]
+    variants += [(n, "siblings*") for n in (others if ctx.thorough else rng.shuffle(others)[:1])]
+    if any(not o["ok"] for o in ctx.obligations):   # search stage: a tie or proof obligation is broken -> more sibling histories
+        variants += [(n, "siblings") for n in names for _ in range(2)]
+    for name, order in variants:
+        sib, sib_seed = None, None
         try:
             cfg = scen.load_cfg(shipped[name])
-            relisted = _relist_action_maps(cfg, order, rng)
+            if order.startswith("siblings"):
+                sib_seed = rng.below(10 ** 6)
+                cfg, sib = sibs.sibling_cfg(cfg, sib_seed, force_masking=order.endswith("*"))
+                relisted = 0
+                ctx.count("siblings:entries-added", sib["added"])
+            else:
+                relisted = _relist_action_maps(cfg, order, rng)
             env = scen.make_env(cfg)
         except Exception as e:
             ctx.notes.append(f"scenario {name} not buildable as env: {type(e).__name__}: {str(e)[:100]}")
             continue
         key_order = [list(((a.get("action_space") or {}).get("action_map") or {}).keys()) for a in cfg.get("agents", [])]
         base_name = name
+        rp0 = {"scenario": base_name, "key_order": key_order}
+        if sib is not None:
+            rp0["siblings"] = sib_seed
+            rp0["siblings_force_masking"] = order.endswith("*")
         ctx.count(f"action-map-order:{order}")
         ctx.count("action-map-entries-listed-out-of-ascending-order", relisted)
         name = f"{name}[{order}]"
@@ -102,7 +147,7 @@ def env_level(ctx: Ctx):
                                   f"{name} reset before ep{ep}: env.action_masks() right after reset() differs from the mask of the new "
                                   f"episode's state at {len(bad)} entries, e.g. action {bad[0]} {amap[bad[0]][0]} {amap[bad[0]][1]}: "
                                   f"handed out {after[bad[0]]}, state says {fresh[bad[0]]}",
-                                  {"mode": "mask-reset", "scenario": base_name, "key_order": key_order, "seed": prev_seed,
+                                  {"mode": "mask-reset", **rp0, "seed": prev_seed,
                                    "actions": list(taken), "reset_seed": ep_seed})
             else:
                 env.reset(seed=ep_seed)
@@ -113,14 +158,50 @@ def env_level(ctx: Ctx):
             # bias towards power/service transitions so that transitional states are visited
             trans = [i for i, (ident, _) in amap.items() if any(k in ident for k in ("shutdown", "startup", "reset", "restart", "stop",
                                                                                        "install", "disable", "remove"))]
-            for step in range(ctx.scale(25, 120) if order == "as-listed" else ctx.scale(12, 60)):
+            raws: List[List[Any]] = []
+            if sib is not None:   # drive SIBLINGS apart: delete one file of a folder, stop one service of a host, one folder of two …
+                trans = sibs.diverging(amap, sib["first"]) or trans
+                raws = sibs.raw_divergers(sib["hosts"])
+            for step in range(ctx.scale(25, 120) if order == "as-listed" else (ctx.scale(30, 60) if sib is not None else ctx.scale(12, 60))):
                 sim = env.game.simulation
+                if raws and rng.chance(1, 5):
+                    q = rng.choice(raws)
+                    try:
+                        sim.apply_request(list(q))
+                    except Exception:
+                        pass
+                    taken.append(list(q))
+                    ctx.count("siblings:raw-folder-request")
                 mask = list(env.action_masks())
                 if len(mask) != n_actions or sorted(amap) != list(range(n_actions)):
                     ctx.violation({"kind": "mask-length-or-numbering", "len": len(mask), "n": n_actions},
                                   f"{name}: mask has {len(mask)} bits for {n_actions} actions / keys {sorted(amap)[:5]}…",
                                   {"scenario": name, "episode": ep, "step": step})
                     break
+                if step % (3 if sib is not None else 6) == 0:
+                    # computing the mask is an observation: asking twice gives the same array and the simulation's described state
+                    # is what it was (a verdict kept from the first computation, or a rule with a side effect, shows here)
+                    before_state = json.dumps(sim.describe_state(), sort_keys=True, default=str)
+                    again = list(env.game.action_mask(env._agent_name)) if env.agent.config.agent_settings.action_masking else list(env.action_masks())
+                    after_state = json.dumps(sim.describe_state(), sort_keys=True, default=str)
+                    ctx.count("mask-purity:checked")
+                    if [int(b) for b in again] != [int(b) for b in mask] or before_state != after_state:
+                        ctx.violation({"kind": "mask-computation-not-pure", "state_changed": before_state != after_state},
+                                      f"{name} ep{ep} step{step}: computing the action mask a second time "
+                                      + ("changed the simulation's described state" if before_state != after_state else
+                                         f"gave a different mask at entries {[i for i in range(len(mask)) if int(mask[i]) != int(again[i])][:6]}"),
+                                      {"mode": "mask-pure", **rp0, "seed": ep_seed, "actions": list(taken), "episode": ep, "step": step,
+                                       "action_index": 0})
+                if sib is not None:   # how often the history really has siblings in DIFFERENT conditions when the mask is computed
+                    groups: Dict[Any, set] = {}
+                    for i, (ident, opts) in amap.items():
+                        if i >= sib["first"]:
+                            groups.setdefault((ident, opts.get("node_name") or opts.get("target_nodename")), set()).add(int(mask[i]))
+                    split = sorted({g[0].split("-")[1] for g, bits in groups.items() if len(bits) == 2})
+                    ctx.count("siblings:masks-computed")
+                    ctx.count("siblings:action-type-and-node-groups-with-both-bits", sum(1 for bits in groups.values() if len(bits) == 2))
+                    for kind in split:
+                        ctx.count(f"siblings:masks-with-split-{kind}-siblings")
                 snap = rig.Snap(sim._request_manager)
                 with rig.Probe(sim, snap, stub=True) as probe:
                     for i, (ident, opts) in amap.items():
@@ -136,11 +217,11 @@ def env_level(ctx: Ctx):
                             ctx.violation({"kind": "mask-disagrees-with-execution", "mask": int(mask[i]), "outcome": out.split()[0],
                                            "action": ident},
                                           f"{name} ep{ep} step{step}: action {i} {ident} {opts}: mask={int(mask[i])} but __call__ -> {out}",
-                                          {"mode": "mask-env", "scenario": base_name, "key_order": key_order, "seed": ep_seed,
+                                          {"mode": "mask-env", **rp0, "seed": ep_seed,
                                            "actions": list(taken), "episode": ep, "step": step, "action_index": i, "req": req})
                 # executed-action oracle: the mask bit computed immediately before REALLY executing the entry's request
-                fileops = [i for i, (ident, _) in amap.items() if "file" in ident or "folder" in ident]
-                for _ in range(ctx.scale(3, 6)):
+                fileops = [i for i, (ident, _) in amap.items() if ("file" in ident or "folder" in ident) and (sib is None or i >= sib["first"])]
+                for _ in range(ctx.scale(3, 6) if sib is None else 1):
                     i = rng.choice(fileops) if fileops and rng.chance(1, 2) else rng.below(n_actions)
                     ident, opts = amap[i]
                     req = env.agent.action_manager.form_request(ident, opts)
@@ -162,14 +243,16 @@ def env_level(ctx: Ctx):
                     if bit and (by_rule or st == "unreachable"):
                         ctx.violation({"kind": "allowed-action-refused-by-rule", "action": ident, "status": st},
                                       f"{name} ep{ep} step{step}: mask allowed action {i} {ident} {opts} but it was refused: {st} {reason!r}",
-                                      {"mode": "mask-exec", "scenario": base_name, "key_order": key_order, "seed": ep_seed,
+                                      {"mode": "mask-exec", **rp0, "seed": ep_seed,
                                        "actions": list(taken[:-1]), "episode": ep, "step": step, "action_index": i, "req": req, "reason": reason})
                     if not bit and st == "success":
                         ctx.violation({"kind": "masked-out-action-succeeded", "action": ident},
                                       f"{name} ep{ep} step{step}: masked-out action {i} {ident} {opts} succeeded",
-                                      {"mode": "mask-exec", "scenario": base_name, "key_order": key_order, "seed": ep_seed,
+                                      {"mode": "mask-exec", **rp0, "seed": ep_seed,
                                        "actions": list(taken[:-1]), "episode": ep, "step": step, "action_index": i, "req": req})
                 a = rng.choice(trans) if trans and rng.chance(1, 2) else rng.below(n_actions)
+                if sib is not None and not rng.chance(1, 6):   # stay among the sibling entries
+                    a = rng.choice(trans) if rng.chance(1, 2) else sib["first"] + rng.below(sib["added"])
                 # stepped-action oracle: the mask the USER holds (read before the step) against what `env.step(a)` does with
                 # action a — "executing it now" includes whatever the step does before the agent acts (pre_timestep)
                 v = _stepped_action_check(env, int(a))
@@ -180,7 +263,7 @@ def env_level(ctx: Ctx):
                     ctx.violation({"kind": v["violation"], "action": ident, "status": v["status"]},
                                   f"{name} ep{ep} step{step}: env.step({int(a)}) = {ident} {opts}: mask bit read before the step = {v['bit']}, "
                                   f"answer {v['status']} {v['reason']!r}",
-                                  {"mode": "mask-step", "scenario": base_name, "key_order": key_order, "seed": ep_seed,
+                                  {"mode": "mask-step", **rp0, "seed": ep_seed,
                                    "actions": list(taken), "episode": ep, "step": step, "action_index": int(a)})
                 taken.append(int(a))
         # countdown-boundary family: a trigger (restart / shutdown / startup / reset) followed, after k idle steps for every k around
@@ -223,7 +306,7 @@ def env_level(ctx: Ctx):
                         ctx.violation({"kind": v["violation"], "action": amap[f][0], "status": v["status"], "after": amap[t][0]},
                                       f"{name}: {amap[t][0]} {amap[t][1]}, {k} idle steps, then env.step({f}) = {amap[f][0]} {amap[f][1]}: mask bit "
                                       f"read before the step = {v['bit']}, answer {v['status']} {v['reason']!r}",
-                                      {"mode": "mask-step", "scenario": base_name, "key_order": key_order, "seed": ep_seed,
+                                      {"mode": "mask-step", **rp0, "seed": ep_seed,
                                        "actions": [int(x) for x in plan], "episode": -1, "step": len(plan), "action_index": int(f)})
         env.close()
     ctx.cov["mask_entries_compared"] = total
@@ -235,11 +318,13 @@ def env_level(ctx: Ctx):
 
 def replay(rec: dict) -> bool:
     rp = rec["replay"]
-    if rp.get("mode") not in ("mask-env", "mask-exec", "mask-step", "mask-reset"):
+    if rp.get("mode") not in ("mask-env", "mask-exec", "mask-step", "mask-reset", "mask-pure"):
         return c05.replay(rec)
     # rebuild the environment with the recorded listing order of every action map, re-seed, re-take the recorded actions, and
     # compare the mask bit of the recorded entry with what __call__ does (stubbed handlers) at that state
     cfg = scen.load_cfg(scen.shipped()[rp["scenario"]])
+    if rp.get("siblings") is not None:
+        cfg, _ = sibs.sibling_cfg(cfg, rp["siblings"], force_masking=bool(rp.get("siblings_force_masking")))
     for a, keys in zip(cfg.get("agents", []), rp["key_order"]):
         am = (a.get("action_space") or {}).get("action_map")
         if isinstance(am, dict) and keys:
@@ -271,6 +356,13 @@ def replay(rec: dict) -> bool:
             env.step(a)
     sim = env.game.simulation
     i = rp["action_index"]
+    if rp["mode"] == "mask-pure":
+        m1 = [int(b) for b in env.action_masks()]
+        s1 = json.dumps(sim.describe_state(), sort_keys=True, default=str)
+        m2 = [int(b) for b in env.game.action_mask(env._agent_name)] if env.agent.config.agent_settings.action_masking else m1
+        s2 = json.dumps(sim.describe_state(), sort_keys=True, default=str)
+        env.close()
+        return m1 == m2 and s1 == s2
     if rp["mode"] == "mask-step":
         v = _stepped_action_check(env, i)
         env.close()
@@ -302,6 +394,9 @@ def run(ctx: Ctx):
     with lean_lock():
         ctx.extract("RequestCore", x_core.emit)
         ctx.extract("ActionMask", x_mask.emit)
+        ctx.extract(x_templ.GEN_NAME, x_templ.emit)    # Props/C11Rules imports Props/C05Guards -> C05Schema -> Gen/ActionTemplates
+        ctx.extract(x_schema.GEN_NAME, x_schema.emit)  # Props/C11Memo: on which edges of the tree those rules stand
+        ctx.extract(x_valid.GEN_NAME, x_valid.emit)   # Props/C11Memo: which translated rules read their options
         ctx.prove(MODULES, exes=[EXE], leanchecker=ctx.thorough)
     ctx.cov["rule"] = ("(a) every route / mutation / action request of live trees at random states: real check_valid vs model checkValid and vs "
                        "real dispatch; (b) every action-map entry at every step of random episodes on scenarios with action masking; "
